@@ -105,15 +105,18 @@ PROPS = {
                        "(S) programs of put / get / delete of tags, policy, ACL, ownership controls, versioning, lock configuration with "
                        "generated documents, interleaved with a fresh gateway taking over the storage: every get returns the last acknowledged "
                        "write (semantic equality), deleted settings are absent; (R) DeleteBucket racing PutObject / CreateMultipartUpload / "
-                       "CompleteMultipartUpload / CreateBucket under a harness-owned schedule (see C05 machinery)."),
+                       "CompleteMultipartUpload / CreateBucket / a second DeleteBucket under a harness-owned schedule (the C05 machinery: every operation "
+                       "parks at each filesystem-step hook on the bucket, a generated list of choices releases them): an upload that was acknowledged must "
+                       "be readable afterwards unless no DeleteBucket was acknowledged ... i.e. never both acknowledged with the object gone."),
         "level_note": "AWS-reserved name prefixes / suffixes (xn--, -s3alias ...) are not part of the rules checked. Exploration only.",
         "rule": ("N: non-trivial = a name of legal length and character set (the remaining rules decide); B: a create on an existing bucket or a paged "
-                 "listing; S: a get after a put / delete of the same setting; R: the delete overlaps an upload. Distinct by full case."),
+                 "listing; S: a get after a put / delete of the same setting; R: two operations of the race were in flight together. Distinct by full case."),
         "assumptions": ["in-process engine replicates runGateway wiring"],
         "jobs": [
             {"run": "TestC16Names", "quick": 60000, "thorough": 3000000, "shards_quick": 4, "shards_thorough": 16},
             {"run": "TestC16Buckets", "quick": 6000, "thorough": 300000, "shards_quick": 6, "shards_thorough": 16},
             {"run": "TestC16Settings", "quick": 6000, "thorough": 300000, "shards_quick": 6, "shards_thorough": 16},
+            {"run": "TestC16Race", "quick": 3000, "thorough": 300000, "shards_quick": 6, "shards_thorough": 16},
         ],
     },
     "C10": {
